@@ -772,3 +772,24 @@ Section UNAMES2.
     rewrite E in R1. rewrite R1 in R2. inversion R2. reflexivity.
   Qed.
 End UNAMES2.
+
+Section UNAMES3.
+  Variable uletter udigit : string -> bool.
+  Definition uwstream_ok (s : list (string * list qel) * list lentry) : bool :=
+    negb (Nat.eqb (List.length (fst s)) 0) && forallb (upair_ok uletter udigit) (fst s).
+  Lemma pb_texts_read_back_u : forall blank (ws : list (list (string * list qel) * list lentry)),
+    all_bytes is_ws blank = true -> forallb uwstream_ok ws = true ->
+    pb_streams_of_texts uletter udigit (map (fun s => (print_labels blank (fst s), snd s)) ws) =
+    Some (map (fun s => LS (labels_written (fst s)) (snd s)) ws).
+  Proof.
+    intros blank ws Hb. induction ws as [|s r IH]; intro H; [reflexivity|].
+    cbn [forallb] in H. apply andb_prop in H. destruct H as [Hs Hr].
+    unfold uwstream_ok in Hs. apply andb_prop in Hs. destruct Hs as [Hn Ho].
+    cbn [map pb_streams_of_texts fst snd].
+    assert (Hne : fst s <> []) by (destruct (fst s); [discriminate Hn | discriminate]).
+    pose proof (parse_print_roundtrip_u uletter udigit blank (fst s) EmptyString [] Hb Hne Ho) as R.
+    assert (E : (print_labels blank (fst s) ++ EmptyString)%string = print_labels blank (fst s)).
+    { generalize (print_labels blank (fst s)). induction s0; cbn; [reflexivity | rewrite IHs0; reflexivity]. }
+    rewrite E in R. rewrite R. rewrite (IH Hr). reflexivity.
+  Qed.
+End UNAMES3.
